@@ -135,10 +135,46 @@ func planC16A(tier string, corpus []Prog) ([]fwproto.Job, []ordMeta) {
 	for n := 0; n < nGen; n++ {
 		r := prng.Stream(seed, "ordersim", "genmod", n)
 		ms := genModuleSet(r, genModOpts{Clashes: n%2 == 1, Aliases: true})
+		if n%4 == 3 {
+			clashVariant(ms, r)
+		}
 		j := fwproto.Job{Tree: ms.Tree, Root: ms.Root, Source: true, Annot: r.Bool()}
 		add(j, ordMeta{Class: "genmod", Name: fmt.Sprintf("genmod#%d", n), MS: ms}, orderSpecs(r, thorough))
 	}
 	return jobs, meta
+}
+
+// clashVariant makes the root declare, before its imports, several names that a module it imports as a whole exports:
+// one import then has several clashes to report, and which is reported (first) must not depend on any iteration order.
+func clashVariant(ms *ModSet, r *prng.R) {
+	var names []string
+	for _, imp := range ms.Mods[0].Imports {
+		if imp.Target > 0 && len(imp.Names) == 0 {
+			vars, _ := publicNamesOf(ms.Mods[imp.Target])
+			if len(vars) >= 2 {
+				names = vars
+				if r.Bool() {
+					break
+				}
+			}
+		}
+	}
+	if len(names) < 2 {
+		return
+	}
+	src := string(ms.Tree.Files[ms.Root])
+	head, rest, ok := strings.Cut(src, "\n")
+	if !ok {
+		return
+	}
+	var b strings.Builder
+	b.WriteString(head + "\n")
+	for _, k := range r.Perm(len(names)) {
+		fmt.Fprintf(&b, "Die Zahl %s ist 0.\n", names[k])
+	}
+	b.WriteString(rest)
+	ms.Tree.Files[ms.Root] = []byte(b.String())
+	ms.Valid = false
 }
 
 type ordReplay struct {
